@@ -360,9 +360,25 @@ def prove(ctx, modules, theorems, note_modules=None):
     ctx.cov["obligations"] += len(theorems)
     ctx.cov["checker_cmd"] = "cd /verif/lean && lake build %s && lake env lean <#print axioms of each theorem>" % " ".join(modules)
     if not ok:
-        failed = lean_failed_modules(out)
-        errs = re.findall(r"^error: (.*)$", out, re.M)
-        ctx.obligation_failed("lake build " + " ".join(failed or modules), "\n".join(errs[:12])[-3000:])
+        # which modules still check? (each theorem / obligation module is judged on its own)
+        bad_mods = []
+        for m in modules:
+            okm, outm = lean_build([m])
+            if not okm:
+                bad_mods.append(m)
+                errs = re.findall(r"^error: (.*)$", outm, re.M)
+                ctx.obligation_failed("lake build " + m, "\n".join(errs[:8])[-2000:])
+        if not bad_mods:
+            ctx.obligation_failed("lake build " + " ".join(modules), out[-2000:])
+            return False
+        theorems_ok = [(m, t) for m, t in theorems if m not in bad_mods]
+        res, aout = lean_audit(theorems_ok) if theorems_ok else ({}, "")
+        for (m, t) in theorems_ok:
+            ax = res.get(t)
+            if ax is not None and set(ax) <= ALLOWED_AXIOMS:
+                ctx.cov["discharged"] += 1
+        ctx.cov.setdefault("theorems", []).extend(t for _, t in theorems)
+        ctx.cov.setdefault("theorems_not_checking", []).extend(t for m, t in theorems if m in bad_mods)
         return False
     res, aout = lean_audit(theorems)
     good = 0
